@@ -77,6 +77,23 @@ class VariableCacheProvider:
         """The number of variables we have cached."""
         return len(self.__cache)
 
+    def mark(self) -> int:
+        """A mark to roll back to."""
+        return len(self.__cache)
+
+    def rollback(self, mark: int):
+        """
+        Forget the ids handed out since the mark.
+
+        When a collection is abandoned half way (its variables are thrown away) the ids it handed out must go too,
+        or a later reference to one of these values is answered from the cache with the id of a variable that is
+        not in the snapshot.
+
+        :param mark: the result of mark()
+        """
+        for identity_hash_id in list(self.__cache)[mark:]:
+            del self.__cache[identity_hash_id]
+
     def new_var_id(self, identity_hash_id):
         """
         Create a new variable id from the hash id.
